@@ -3,10 +3,10 @@ import lib
 
 CFG = dict(
     streams=[('rw', 2500, 40000), ('e2e', 150, 2500)],
-    oracle_ops={'rwspec15', 'e2e'},
+    oracle_ops={'rwspec15', 'e2e', 'envbool'},
     twophase_ops={'e2e'},
     project={'e2e': lib.proj_e2e({'st', 'body'})},
-    ops_filter={'rw', 'rwspec15', 'e2e'},
+    ops_filter={'rw', 'rwspec15', 'e2e', 'envbool'},
     rule=("HTTPHandler.ServeHTTP in-process: User-Agent absent / empty / 'kube-probe/…' / exactly the prefix / infix / case "
           "variant / probe text only on a second User-Agent line / prefix without slash plus the text in another header / "
           "probe on the first of two lines, crossed with methods, paths, probe support on/off and all other header noise of "
